@@ -1040,7 +1040,7 @@ func main() {
 	r := cfg.Rand
 	n := 240
 	if cfg.Thorough() {
-		n = 2400
+		n = 1600
 	}
 	if *prop == "C08" {
 		// every edit kind forced once per block, then free mixtures
